@@ -246,6 +246,24 @@ class WalkSys:
             if a != p or b != p:
                 viols.append(V("C09", "fog_query_wrong", "nearest_unknown / nearest_right of an unexplored prefix is not that prefix", prefix=p))
                 break
+        if fogm:
+            # a walker that sweeps to the right (nearest_right from the last key it handled) and treats PerfectVisibility as
+            # "done": beyond the right-most unexplored prefix it must be told "nothing further right", never "nothing left"
+            from trie.exceptions import PerfectVisibility
+            last = list(fogm[-1])
+            while last and last[-1] == 15:
+                last.pop()
+            beyond = tuple(last[:-1]) + (last[-1] + 1,) if last else None  # the first key to the right of everything unexplored
+            if beyond is not None:
+                try:
+                    r = tuple(fog.nearest_right(beyond))
+                    if r not in fogm:
+                        viols.append(V("C09", "fog_query_wrong", "nearest_right returned something that is not unexplored", prefix=beyond))
+                except PerfectVisibility:
+                    viols.append(V("C09", "walk_ends_early", "a rightward sweep is told 'nothing is unexplored' (PerfectVisibility) while prefixes remain: "
+                                   "the walk would stop with the fog incomplete", prefix=beyond, remaining=fogm))
+                except Exception:  # noqa  (FullDirectionalVisibility: wrap around)
+                    pass
         if not (met <= ever):
             viols.append(V("C09", "met_never_stored", "the walk met a key/value pair that was never stored", field="met",
                            extra=sorted(met - ever), mutations=nmut, prune=self.prune))
